@@ -24,6 +24,11 @@ def grid(thorough):
     for b in (2**32, -(2**32), 2**63, -(2**63)):
         g |= {b - 1, b, b + 1}
     g |= {2**31, -(2**31) - 1, 2**64, -(2**64), 10**30, -(10**30)}
+    # interior landmarks (a bound narrower than the LSP range shows here): powers of two and of ten, both signs
+    for k in (7, 8, 15, 16, 24, 30):
+        g |= {s * (2**k + d) for s in (1, -1) for d in (-1, 0, 1)}
+    for k in range(1, 10):
+        g |= {s * (10**k + d) for s in (1, -1) for d in (0, 1)}
     if thorough:
         for b in (INT_MIN, INT_MAX, 0, 2**32, -(2**32)):
             g |= set(range(b - 1024, b + 1025))
